@@ -2,6 +2,8 @@ import VibeProof.Model.Text
 /-
 Lemmas about the text model shared by C19, C31 and C30.
 -/
+deriving instance DecidableEq for Except
+
 namespace VibeProof.Text
 
 /-- core of T1: lexing the doubled form of `s` followed by the closing quote and a rest that does
@@ -18,17 +20,279 @@ theorem lexStrBody_dbl (q : Char) (s r : Str) (hr : ∀ c r', r = c :: r' → c 
   | cons a s ih =>
     by_cases h : a = q
     · subst h
-      simp only [dbl, if_true, List.cons_append]
-      rw [lexStrBody]
-      simp [ih]
+      simp [dbl, lexStrBody, ih]
     · simp only [dbl, h, if_false, List.cons_append]
-      rw [lexStrBody]
+      rw [lexStrBody.eq_def]
       simp [h, ih]
 
 theorem lexString_renderStr (s r : Str) (hr : ∀ c r', r = c :: r' → c ≠ '\'') :
     lexString (renderStr s ++ r) = .ok (s, r) := by
   have := lexStrBody_dbl '\'' s r hr
-  simp only [renderStr, List.cons_append, List.append_assoc, List.singleton_append, lexString]
+  simp only [renderStr, List.cons_append, List.append_assoc, lexString]
   exact this
 
 end VibeProof.Text
+
+namespace VibeProof.Text.Split
+
+/-! ### The splitter: line loop = character machine, as long as no line is skipped -/
+
+/-- end of a physical line -/
+def nl (st : St) : St :=
+  if st.inStr then { st with cur := '\n' :: st.cur } else { st with cur := ' ' :: st.cur }
+
+/-- a line that starts with a character which is neither blank nor '-' is never skipped -/
+def goodStart : Str → Bool
+  | [] => false
+  | c :: _ => !isWs c && c ≠ '-'
+
+/-- character machine: like the line loop but without looking at whole lines; undefined when a
+line break occurs outside a string literal -/
+def runC (v : St) : Str → Option St
+  | [] => some v
+  | c :: cs =>
+    if c = '\n' then (if v.inStr then runC (nl v) cs else none)
+    else runC (stepChar v c) cs
+
+theorem trimStart_snoc (xs : Str) (c : Char) (hc : isWs c = false) :
+    ∃ ys, trimStart (xs ++ [c]) = ys ++ [c] := by
+  induction xs with
+  | nil => exact ⟨[], by simp [trimStart, hc]⟩
+  | cons x xs ih =>
+    by_cases hx : isWs x = true
+    · simpa [trimStart, hx] using ih
+    · exact ⟨x :: xs, by simp [trimStart, hx]⟩
+
+theorem skippable_goodStart (l : Str) (h : goodStart l = true) : skippable l = false := by
+  cases l with
+  | nil => simp [goodStart] at h
+  | cons c rest =>
+    simp only [goodStart, Bool.and_eq_true, Bool.not_eq_true', decide_eq_true_eq] at h
+    obtain ⟨hws, hd⟩ := h
+    obtain ⟨ys, hys⟩ := trimStart_snoc rest.reverse c hws
+    have ht : trim (c :: rest) = c :: ys.reverse := by
+      simp [trim, trimStart, hws, trimEnd, hys]
+    simp only [skippable, ht]
+    split
+    · rename_i heq; cases heq
+    · rename_i heq; injection heq with h1 _; exact absurd h1 hd
+    · rfl
+
+def virt (st0 : St) (line : Str) : St := line.reverse.foldl stepChar st0
+
+def NonSkip (st0 : St) (line : Str) : Prop := st0.inStr = true ∨ goodStart line.reverse = true
+
+theorem procLine_nonskip (st0 : St) (line : Str) (h : NonSkip st0 line) :
+    procLine st0 line.reverse = nl (virt st0 line) := by
+  have hs : (!st0.inStr && skippable line.reverse) = false := by
+    rcases h with h | h
+    · simp [h]
+    · simp [skippable_goodStart _ h]
+  simp only [procLine, hs, nl, virt]
+  split <;> simp_all
+
+theorem nonSkip_cons (st0 : St) (line : Str) (c : Char) (h : NonSkip st0 line) :
+    NonSkip st0 (c :: line) := by
+  rcases h with h | h
+  · exact Or.inl h
+  · right
+    cases hl : line.reverse with
+    | nil => rw [hl] at h; simp [goodStart] at h
+    | cons d t =>
+      rw [hl] at h
+      simp only [List.reverse_cons, hl, List.cons_append, goodStart]
+      simpa [goodStart] using h
+
+theorem virt_cons (st0 : St) (line : Str) (c : Char) :
+    virt st0 (c :: line) = stepChar (virt st0 line) c := by
+  simp [virt, List.foldl_append]
+
+theorem nl_inStr (v : St) : (nl v).inStr = v.inStr := by
+  unfold nl; split <;> rfl
+
+/-- the line loop follows the character machine from any point inside a non-skipped line -/
+theorem sim (X : Str) : ∀ (v v' : St), runC v X = some v' →
+    ∀ (st0 : St) (line rest : Str), NonSkip st0 line → virt st0 line = v →
+      ∃ st0' line', NonSkip st0' line' ∧ virt st0' line' = v' ∧
+        goLines st0 line (X ++ rest) = goLines st0' line' rest := by
+  induction X with
+  | nil =>
+    intro v v' h st0 line rest hn hv
+    simp only [runC, Option.some.injEq] at h
+    exact ⟨st0, line, hn, by rw [hv, h], rfl⟩
+  | cons c cs ih =>
+    intro v v' h st0 line rest hn hv
+    by_cases hc : c = '\n'
+    · subst hc
+      simp only [runC, if_true] at h
+      by_cases hin : v.inStr = true
+      · simp only [hin, if_true] at h
+        have hn' : NonSkip (nl v) [] := Or.inl (by rw [nl_inStr]; exact hin)
+        obtain ⟨s', l', h1, h2, h3⟩ := ih (nl v) v' h (nl v) [] rest hn' (by simp [virt])
+        refine ⟨s', l', h1, h2, ?_⟩
+        simp only [List.cons_append, goLines, if_true]
+        rw [procLine_nonskip st0 line hn, hv]
+        exact h3
+      · simp [hin] at h
+    · simp only [runC, hc, if_false] at h
+      obtain ⟨s', l', h1, h2, h3⟩ :=
+        ih (stepChar v c) v' h st0 (c :: line) rest (nonSkip_cons st0 line c hn) (by rw [virt_cons, hv])
+      refine ⟨s', l', h1, h2, ?_⟩
+      simp only [List.cons_append, goLines, hc, if_false]
+      exact h3
+
+/-- a whole statement line (possibly spanning physical lines inside string literals) -/
+theorem stmt_line (st : St) (c0 : Char) (T rest : Str) (v' : St)
+    (hg : goodStart [c0] = true) (hc0 : c0 ≠ '\n') (hrun : runC st (c0 :: T) = some v') :
+    goLines st [] ((c0 :: T) ++ '\n' :: rest) = goLines (nl v') [] rest := by
+  simp only [runC, hc0, if_false] at hrun
+  have hn : NonSkip st [c0] := Or.inr (by simpa using hg)
+  obtain ⟨s', l', h1, h2, h3⟩ := sim T (stepChar st c0) v' hrun st [c0] ('\n' :: rest) hn (by simp [virt])
+  simp only [List.cons_append, goLines, hc0, if_false]
+  rw [h3]
+  simp only [goLines, if_true]
+  rw [procLine_nonskip s' l' h1, h2]
+
+/-- a comment or blank line outside a string literal is dropped -/
+theorem skip_line (st : St) (c : Str) (hnl : ∀ x ∈ c, x ≠ '\n') :
+    ∀ (line rest : Str), goLines st line (c ++ '\n' :: rest) = goLines (procLine st (line.reverse ++ c)) [] rest := by
+  induction c with
+  | nil => intro line rest; simp [goLines]
+  | cons x xs ih =>
+    intro line rest
+    have hx : x ≠ '\n' := hnl x (by simp)
+    simp only [List.cons_append, goLines, hx, if_false]
+    rw [ih (fun y hy => hnl y (by simp [hy]))]
+    simp
+
+/-! ### The character machine on the text the dump writer produces -/
+
+def rawChar (c : Char) : Bool := c ≠ '\'' && c ≠ '"' && c ≠ ';' && c ≠ '\n'
+
+/-- a piece of statement text: plain characters, or a string value written by `renderStr` -/
+inductive Seg where
+  | raw (cs : Str)
+  | str (s : Str)
+  deriving Repr
+
+def Seg.text : Seg → Str
+  | .raw cs => cs
+  | .str s => renderStr s
+
+def Seg.ok : Seg → Bool
+  | .raw cs => cs.all rawChar
+  | .str _ => true
+
+def segsText (segs : List Seg) : Str := (segs.map Seg.text).flatten
+
+/-- state reached from `v` by appending `t` to the current statement, outside a string -/
+def pushed (v : St) (t : Str) (v' : St) : Prop :=
+  v'.inStr = false ∧ v'.stmts = v.stmts ∧ v'.cur = t.reverse ++ v.cur
+
+theorem runC_append (X Y : Str) : ∀ v, runC v (X ++ Y) = (runC v X).bind (fun v' => runC v' Y) := by
+  induction X with
+  | nil => intro v; simp [runC]
+  | cons c cs ih =>
+    intro v
+    simp only [List.cons_append, runC]
+    split
+    · split
+      · exact ih _
+      · rfl
+    · exact ih _
+
+theorem stepChar_plain (v : St) (c : Char) (hin : v.inStr = false) (hc : rawChar c = true) :
+    stepChar v c = { v with cur := c :: v.cur } := by
+  simp only [rawChar, Bool.and_eq_true, decide_eq_true_eq] at hc
+  obtain ⟨⟨⟨h1, h2⟩, h3⟩, _⟩ := hc
+  simp [stepChar, hin, h1, h2, h3]
+
+theorem runC_raw (cs : Str) : ∀ (v : St), v.inStr = false → cs.all rawChar = true →
+    ∃ v', runC v cs = some v' ∧ pushed v cs v' := by
+  induction cs with
+  | nil => intro v hin _; exact ⟨v, rfl, hin, rfl, by simp⟩
+  | cons c cs ih =>
+    intro v hin hall
+    simp only [List.all_cons, Bool.and_eq_true] at hall
+    have hnl : c ≠ '\n' := by
+      have := hall.1; simp only [rawChar, Bool.and_eq_true, decide_eq_true_eq] at this; exact this.2
+    obtain ⟨v', h1, h2, h3, h4⟩ := ih (stepChar v c) (by rw [stepChar_plain v c hin hall.1]; exact hin) hall.2
+    refine ⟨v', by simp [runC, hnl, h1], h2, ?_, ?_⟩
+    · rw [h3, stepChar_plain v c hin hall.1]
+    · rw [h4, stepChar_plain v c hin hall.1]; simp
+
+/-- inside a `'…'` literal the doubled content is copied verbatim, line breaks included -/
+theorem runC_content (s : Str) : ∀ (v : St), v.inStr = true → v.strCh = '\'' →
+    ∃ v', runC v (dbl '\'' s) = some v' ∧ v'.inStr = true ∧ v'.strCh = '\'' ∧ v'.stmts = v.stmts ∧
+      v'.cur = (dbl '\'' s).reverse ++ v.cur := by
+  induction s with
+  | nil => intro v h1 h2; exact ⟨v, rfl, h1, h2, rfl, by simp [dbl]⟩
+  | cons c s ih =>
+    intro v h1 h2
+    by_cases hq : c = '\''
+    · subst hq
+      have e1 : stepChar v '\'' = { v with inStr := false, cur := '\'' :: v.cur } := by
+        simp [stepChar, h1, h2]
+      have e2 : stepChar { v with inStr := false, cur := '\'' :: v.cur } '\'' =
+          { v with inStr := true, strCh := '\'', cur := '\'' :: '\'' :: v.cur } := by
+        simp [stepChar]
+      obtain ⟨v', r1, r2, r3, r4, r5⟩ :=
+        ih { v with inStr := true, strCh := '\'', cur := '\'' :: '\'' :: v.cur } rfl rfl
+      refine ⟨v', ?_, r2, r3, r4, ?_⟩
+      · simp only [dbl, if_true, runC]
+        simp only [show ('\'' = '\n') = False by decide, if_false, e1, e2]
+        exact r1
+      · rw [r5]; simp [dbl]
+    · by_cases hn : c = '\n'
+      · subst hn
+        obtain ⟨v', r1, r2, r3, r4, r5⟩ := ih (nl v) (by rw [nl_inStr]; exact h1)
+          (by simp [nl, h1, h2])
+        refine ⟨v', ?_, r2, r3, ?_, ?_⟩
+        · simp only [dbl, hq, if_false, runC, if_true, h1]
+          exact r1
+        · rw [r4]; simp [nl, h1]
+        · rw [r5]; simp [nl, h1, dbl, hq]
+      · have e : stepChar v c = { v with cur := c :: v.cur } := by
+          simp [stepChar, h1, h2, hq]
+        obtain ⟨v', r1, r2, r3, r4, r5⟩ := ih { v with cur := c :: v.cur } h1 h2
+        refine ⟨v', ?_, r2, r3, r4, ?_⟩
+        · simp only [dbl, hq, if_false, runC, hn, e]
+          exact r1
+        · rw [r5]; simp [dbl, hq]
+
+/-- a string value written by the dump is copied verbatim and leaves the machine outside strings -/
+theorem runC_str (s : Str) (v : St) (hin : v.inStr = false) :
+    ∃ v', runC v (renderStr s) = some v' ∧ pushed v (renderStr s) v' := by
+  have e0 : stepChar v '\'' = { v with inStr := true, strCh := '\'', cur := '\'' :: v.cur } := by
+    simp [stepChar, hin]
+  obtain ⟨v1, r1, r2, r3, r4, r5⟩ :=
+    runC_content s { v with inStr := true, strCh := '\'', cur := '\'' :: v.cur } rfl rfl
+  have e1 : stepChar v1 '\'' = { v1 with inStr := false, cur := '\'' :: v1.cur } := by
+    simp [stepChar, r2, r3]
+  refine ⟨{ v1 with inStr := false, cur := '\'' :: v1.cur }, ?_, rfl, ?_, ?_⟩
+  · simp only [renderStr, runC, show ('\'' = '\n') = False by decide, if_false, e0]
+    rw [runC_append, r1]
+    simp [runC, e1]
+  · simp [r4]
+  · simp [r5, renderStr]
+
+theorem runC_segs (segs : List Seg) : ∀ (v : St), v.inStr = false → (∀ g ∈ segs, g.ok = true) →
+    ∃ v', runC v (segsText segs) = some v' ∧ pushed v (segsText segs) v' := by
+  induction segs with
+  | nil => intro v hin _; exact ⟨v, rfl, hin, rfl, by simp [segsText]⟩
+  | cons g gs ih =>
+    intro v hin hok
+    have hg := hok g (by simp)
+    have : ∃ v1, runC v g.text = some v1 ∧ pushed v g.text v1 := by
+      cases g with
+      | raw cs => exact runC_raw cs v hin hg
+      | str s => exact runC_str s v hin
+    obtain ⟨v1, a1, a2, a3, a4⟩ := this
+    obtain ⟨v2, b1, b2, b3, b4⟩ := ih v1 a2 (fun g' hg' => hok g' (by simp [hg']))
+    refine ⟨v2, ?_, b2, by rw [b3, a3], ?_⟩
+    · simp only [segsText, List.map_cons, List.flatten_cons]
+      rw [runC_append, a1]
+      exact b1
+    · rw [b4, a4]; simp [segsText]
+
+end VibeProof.Text.Split
